@@ -13,9 +13,46 @@ META = {
     "level_note": ("PARTIAL: in a pure model isolation is structural; what could break it in C++ (component caches, shared ConfigData, static "
                    "buffers, the notification path) is invisible to the theorems and exhibited only by the transcript comparison, whose reach "
                    "is bounded by the generator. Learning disabled (synthetic schemas have no user dictionary); switcher menu not exercised; "
-                   "time-dependent behaviour (session staleness sweep) not exercised."),
+                   "the staleness sweep (Service::CleanupStaleSessions) is exercised with the wall clock supplied by the harness: the service model of the driver keeps each session's last-active time and sweeps on `cleanup_stale`, directed gaps on both sides of the 300 s bound; swept ids are then probed like destroyed ones."),
     "design_ref": "DESIGN.md §3 C16",
 }
+
+
+# Service::CleanupStaleSessions: a session goes when it was last active more than Session::kLifeSpan (300 s) before the sweep.
+# The harness supplies time() (it stands still except for `advance`), so a block `advance a; one call on some sessions;
+# advance b; cleanup_stale` decides exactly who is stale: the sessions called in between iff b > 300, the others iff
+# a + b > 300 (every live session is active "now" when a block starts: time moves inside blocks only and the sweep op looks
+# all survivors up).  The gaps sit on both sides of the bound.
+STALE_GAPS = [(0, 300), (0, 301), (1, 300), (300, 1), (150, 150), (150, 151), (301, 0), (200, 100), (299, 1), (400, 400), (0, 0)]
+
+
+def stale_block(events, live, own_ops, a, b):
+    """appends the block; own_ops: {k: op} for the sessions called between the two advances; returns the sessions swept"""
+    events.append(("advance", a))
+    for k in sorted(own_ops):
+        events.append(("op", k, own_ops[k]))
+    events.append(("advance", b))
+    gone = [k for k in live if (b > 300 if k in own_ops else a + b > 300)]
+    events.append(("cleanup_stale", tuple(gone)))
+    return gone
+
+
+def directed_stale():
+    """every gap pair on three sessions (one called between the advances, one not, one created before and never used),
+    followed by calls on all three and a new session (its id may be the address of a swept one)"""
+    out = []
+    for (a, b) in STALE_GAPS:
+        ev = [("new", 0, "vs_script"), ("new", 1, "vs_fluid"), ("new", 2, "vs_script"), ("op", 0, "key 97 0"), ("op", 1, "key 98 0")]
+        gone = stale_block(ev, [0, 1, 2], {1: "key 97 0"}, a, b)
+        for k in (0, 1, 2):
+            ev += [("op", k, "key 98 0"), ("op", k, "key 32 0"), ("op", k, "read_commit")]
+        ev += [("ids",), ("new", 3, "vs_script"), ("op", 3, "key 97 0")]
+        # a second sweep right away: nobody else goes (the survivors were looked up by the first one)
+        g2 = stale_block(ev, [k for k in (0, 1, 2, 3) if k not in gone], {}, 0, 300)
+        ev += [("op", 3, "key 32 0"), ("op", 3, "read_commit"), ("op", 0, "commit")]
+        ev += [("destroy", k) for k in (0, 1, 2, 3) if k not in gone]
+        out.append(ev)
+    return out
 
 
 def gen_multi(c, n_sessions, n_ops):
@@ -38,6 +75,8 @@ def gen_multi(c, n_sessions, n_ops):
             choices.append("ids")
         if alive and rng.random() < 0.012:
             choices.append("cleanup_all")
+        if alive and rng.random() < 0.03:
+            choices.append("stale")
         ch = rng.choice(choices) if choices else "new"
         if ch == "new":
             events.append(("new", created, sids[created]))
@@ -56,6 +95,17 @@ def gen_multi(c, n_sessions, n_ops):
             dead_probe[k] = 3
         elif ch == "ids":
             events.append(("ids",))
+        elif ch == "stale" and alive:
+            keep = [k for k in sorted(alive) if pos[k] < len(scripts[k]) and rng.random() < 0.5]
+            own = {}
+            for k in keep:
+                own[k] = scripts[k][pos[k]]
+                pos[k] += 1
+            gone = stale_block(events, sorted(alive), own, *rng.choice(STALE_GAPS))
+            for k in gone:
+                alive.discard(k)
+                pos[k] = len(scripts[k])
+                dead_probe[k] = 3
         elif ch == "cleanup_all" and alive:
             # bulk destruction (Service::CleanupAllSessions); the most recently used session is probed first
             events.append(("cleanup_all",))
@@ -138,6 +188,11 @@ def to_script(rows, events):
         elif e[0] == "cleanup_all":
             lines.append("cleanup_all")
             index.append((None, "cleanup_all"))
+        elif e[0] == "advance":
+            lines.append("advance %d" % e[1])            # no output line
+        elif e[0] == "cleanup_stale":
+            lines.append("cleanup_stale")
+            index.append((None, "cleanup_stale " + ",".join(str(k) for k in e[1])))
         else:
             lines.append("ids")
             index.append((None, "ids"))
@@ -161,8 +216,8 @@ def solo_events(events, k):
     for e in events:
         if e[0] in ("new", "op", "destroy") and e[1] == k:
             out.append(e)
-        elif e[0] == "cleanup_all":
-            out.append(e)
+        elif e[0] in ("cleanup_all", "advance", "cleanup_stale"):
+            out.append(e)                 # the environment: bulk destruction, the wall clock, the staleness sweep
     return ev + out
 
 
@@ -178,9 +233,15 @@ def run(c):
     exe = sc.build()
     ws = sc.make_workspace(os.path.join(c.work, "ws"), list(sc.SCHEMAS))
     st = {"groups": 0, "events": 0, "sessions": 0, "dead_calls": 0, "ids_checks": 0, "nontrivial": set(), "samples": []}
-    for g in range(groups):
+    stale_dir = directed_stale()
+    if quick:
+        stale_dir = c.rng.sample(stale_dir, 5)
+    st["stale_sweeps"] = st["swept_sessions"] = 0
+    for g in range(len(stale_dir) + groups):
         rows = sc.gen_table(c.rng, "abcd")
-        events = gen_multi(c, n_sessions, n_ops)
+        events = stale_dir[g] if g < len(stale_dir) else gen_multi(c, n_sessions, n_ops)
+        st["stale_sweeps"] += sum(1 for e in events if e[0] == "cleanup_stale")
+        st["swept_sessions"] += sum(len(e[1]) for e in events if e[0] == "cleanup_stale")
         script, index = to_script(rows, events)
         rc, out, impl, model = sc.run_both(c, exe, ws, script, "m%d" % g)
         rc2, out2, impl2, _m = sc.run_both(c, exe, ws, script, "r%d" % g)     # replay in a new process
@@ -207,6 +268,8 @@ def run(c):
                 dead.add(e[1])
             elif e[0] == "cleanup_all":
                 dead |= set(range(64))
+            elif e[0] == "cleanup_stale":
+                dead |= set(e[1])
             elif e[0] == "op" and e[1] in dead:
                 st["dead_calls"] += 1
         for k in sorted(ti):
@@ -238,6 +301,8 @@ def run(c):
                 dead.add(int(op.split()[1]))
             elif op == "cleanup_all":
                 dead |= set(range(64))
+            elif op.startswith("cleanup_stale"):
+                dead |= set(int(x) for x in op.split(" ")[1].split(",")) if " " in op and op.split(" ")[1] else set()
             elif k is not None and op == "new":
                 dead.clear()
             elif k in dead and "nocontext" not in l:
@@ -247,7 +312,7 @@ def run(c):
     # ---- stock components (punctuator, ascii_composer, recognizer, key_binder, script/table translators without
     # learning): no model, transcripts solo vs interleaved vs replayed only
     from checks import c01_common as c1
-    tpl = c1.make_full_workspace(os.path.join(c.work, "fws_tpl"), user_dict=False, second_prism=True)
+    tpl = c1.make_full_workspace(os.path.join(c.work, "fws_tpl"), user_dict=False, second_prism=True, packs=True)
     sc.run_impl(exe, tpl, _write(c, "warm", "new\nschema vs_full\nnew\nschema vs_full2\n"))    # deploy once
     shutil.rmtree(os.path.join(tpl, "log"), ignore_errors=True)
     fresh_n = [0]
@@ -258,7 +323,7 @@ def run(c):
     # the same deployment with the switcher's schema list in its default (most recently used first) order: there the persisted
     # recency decides what `.next`, `.default` and the switcher menu mean, and every schema change of any session updates it;
     # used only for directed groups that touch none of those
-    tpl_mru = c1.make_full_workspace(os.path.join(c.work, "fws_tpl_mru"), user_dict=False, second_prism=True, fix_order=False)
+    tpl_mru = c1.make_full_workspace(os.path.join(c.work, "fws_tpl_mru"), user_dict=False, second_prism=True, fix_order=False, packs=True)
     sc.run_impl(exe, tpl_mru, _write(c, "warm2", "new\nschema vs_full\nnew\nschema vs_full2\n"))
     shutil.rmtree(os.path.join(tpl_mru, "log"), ignore_errors=True)
     cur_tpl = [tpl]
@@ -297,6 +362,30 @@ def run(c):
         for warm in ([], ["key 110 0", "key 105 0", "key 32 0", "read_commit"]):
             ev = [("new", 0, first), ("new", 1, second)] + [("op", 0, x) for x in warm] + [("op", 1, x) for x in warm]
             ev += [("destroy", 1)] + [("op", 0, x) for x in probe] + [("op", 0, x) for x in ["key 104 0", "key 97 0", "key 111 0", "key 32 0", "read_commit"]]
+            directed.append(ev)
+    # directed: objects the component caches hand to every session on the same dictionary (primary table, the pack's table, prism,
+    # reverse db, opencc): another session on the same dictionary / on its sibling schema switches schema away and back or is
+    # destroyed BETWEEN two reads of the surviving session (which has read once already, so everything is loaded)
+    read = ["key 110 0", "key 105 0", "key 32 0", "read_commit", "key 104 0", "key 97 0", "key 111 0", "key 32 0", "read_commit", "key 97 0",
+            "key 65307 0", "option zh_simp 1", "key 109 0", "key 97 0", "key 32 0", "read_commit", "option zh_simp 0"]
+    for other_schema in ("vs_full", "vs_full2"):
+        for away in (["schema vs_script"], ["schema vs_script", "schema %s" % other_schema], None):
+            ev = [("new", 0, "vs_full"), ("new", 1, other_schema)] + [("op", 0, x) for x in read] + [("op", 1, x) for x in read[:4]]
+            ev += [("op", 1, x) for x in away] if away else [("destroy", 1)]
+            ev += [("op", 0, x) for x in read] + [("new", 2, other_schema)] + [("op", 2, x) for x in read[:4]] + [("destroy", 2)] + [("op", 0, x) for x in read]
+            directed.append(ev)
+    # directed: a saved option (default.yaml: switcher/save_options) is written to user.yaml by ANOTHER session, through its
+    # switcher menu (F4, the folded options line, the option's line: the switcher saves what is toggled there), AFTER the
+    # observed session was created; the observed session then changes schema itself (API / the key binder's `select:` hotkey)
+    # and is probed: what it may depend on is what was persisted when it was created
+    F4 = "key 65473 0"
+    for toggle in ([F4, "select_page 1", "select_page 2"],                        # full_shape
+                   [F4, "select_page 1", "key 65366 0", "select_page 2"],         # ascii_punct (second page of the unfolded menu)
+                   [F4, "select_page 1", "select_page 2", F4, "select_page 1", "key 65366 0", "select_page 2"]):
+        for switch in (["schema vs_full2"], ["key 49 5"], ["schema vs_full"], ["schema vs_script", "schema vs_full"]):
+            ev = [("new", 0, "vs_full"), ("new", 1, "vs_full"), ("op", 1, "key 110 0"), ("op", 1, "key 65307 0")]
+            ev += [("op", 0, x) for x in toggle] + [("op", 1, x) for x in switch] + [("op", 1, x) for x in probe]
+            ev += [("op", 0, x) for x in probe[:8]]
             directed.append(ev)
     # directed, on the deployment whose schema list is in most-recently-used order: a session asks for a schema that is not
     # installed (or was removed) after ANOTHER session changed its schema — what it gets must not depend on that
@@ -389,9 +478,10 @@ def run(c):
     cov = vlib.proof_cov(audit, "lake build RimeModel.Props.C16 && #print axioms (all theorems) && forbidden-token scan"
                          + ("" if quick else " && leanchecker"), vlib.STD_TRUSTED)
     cov.update({"evaluations": st["events"], "distinct_nontrivial": len(st["nontrivial"]),
-                "rule": "groups of %d sessions on random synthetic schemas with interleaved call sequences, creations/destructions in between, calls on destroyed ids, `ids` probes; each group is run interleaved, replayed in a new process, and every session re-run solo; non-trivial = observation in a composing state (distinct lines)" % n_sessions,
+                "rule": "groups of %d sessions on random synthetic schemas with interleaved call sequences, creations/destructions in between, calls on destroyed ids, `ids` probes, staleness sweeps (the wall clock advanced by the harness to either side of the 300 s life span, some sessions called in between; directed: every gap pair on three sessions) with calls on the swept ids; each group is run interleaved, replayed in a new process, and every session re-run solo; non-trivial = observation in a composing state (distinct lines)" % n_sessions,
                 "samples": st["samples"], "groups": st["groups"], "sessions_compared_solo_vs_interleaved": st["sessions"],
-                "calls_on_dead_ids": st["dead_calls"], "ids_probes": st["ids_checks"], "proof_failures": audit["failures"]})
+                "calls_on_dead_ids": st["dead_calls"], "ids_probes": st["ids_checks"], "proof_failures": audit["failures"],
+                "staleness_sweeps": st.get("stale_sweeps", 0), "sessions_swept_as_stale": st.get("swept_sessions", 0)})
     c.cov = cov
     c.assumptions = ["learning disabled (no user dictionary in the synthetic schemas)", "outside the schema-switcher menu",
                      "one client thread"]
@@ -407,7 +497,7 @@ def replay(c, r):
         # stock-component case: interleaved twice and the named session solo, each from a fresh copy of the deployed template
         from checks import c01_common as c1
         tpl = c1.make_full_workspace(os.path.join(c.work, "fws_tpl"), user_dict=False, second_prism=True,
-                                     fix_order=not r.get("schema_list_in_mru_order"))
+                                     fix_order=not r.get("schema_list_in_mru_order"), packs=True)
         sc.run_impl(exe, tpl, _write(c, "warm", "new\nschema vs_full\nnew\nschema vs_full2\n"))
         runs = []
         events = [("snap", os.path.join(c.work, os.path.basename(e[1]))) if e[0] == "snap" else e for e in events]
